@@ -121,7 +121,7 @@ class Item:
 
 
 def norm(toks, lo, hi):
-    return " ".join(t.text for t in toks[lo:hi])
+    return " ".join(t.text for t in toks[lo:hi]).replace(">>", "> >")
 
 
 def split_items(toks, pair, lo, hi):
